@@ -240,6 +240,7 @@ def run(chk):
             bad = [j for j in range(n) if not okv[j]]
             chk.fail("array arguments are handled element-wise", case, dict(array=arr, scalars=sc, elements=bad))
             dis.append(dict(input=C.jsonable(case), impl=C.jsonable(arr), model="element-wise scalar calls: %s" % C.jsonable(sc)))
+        reuse_test(chk, case)
     chk.correspondence("Pk array form == map of the scalar form (1e-9 + rounding amplification; theorem C12_array_pointwise)", n_ar, dis,
                        elements=nel)
     if chk.tier == "thorough":
@@ -279,10 +280,29 @@ def interval_goals(chk, sel, impl, cases):
                rc == 0, (err or out)[-400:] if rc else "")
 
 
+def reuse_test(chk, case):
+    """the way the library uses it: ONE slope array (and one pair of edge arrays), several moments taken one after the other
+    (P1 then P2 then P1 again); each must equal the first call, and the arrays come back untouched"""
+    from ssptools.masses import Pk as Pk_
+    a, k, m1, m2 = case["a"], case["k"], case["m1"], case["m2"]
+    a_arr, m1_arr, m2_arr = np.array(a, dtype=float), np.array(m1, dtype=float), np.array(m2, dtype=float)
+    first = [float(x) for x in Pk_(a_arr, k, m1_arr, m2_arr)]
+    k2 = k + 1 if k < 2 else k - 1
+    Pk_(a_arr, k2, m1_arr, m2_arr)
+    again = [float(x) for x in Pk_(a_arr, k, m1_arr, m2_arr)]
+    chk.count("slope arrays re-used for several moments")
+    if not (np.array_equal(a_arr, np.array(a, dtype=float)) and np.array_equal(m1_arr, np.array(m1, dtype=float)) and np.array_equal(m2_arr, np.array(m2, dtype=float))) \
+            or not C.all_same(first, again):
+        chk.fail("array arguments are handled element-wise", dict({k_: v_ for k_, v_ in case.items() if k_ != "note"}, note="one slope array used for several moments in turn"),
+                 dict(slopes_after=[float(x) for x in a_arr], first_call=first, same_call_again=again))
+
+
 def replay(chk, payload):
     c = payload["failure"]["input"]
     res = float(np.finfo(float).resolution)
-    if isinstance(c.get("a"), list):
+    if isinstance(c.get("a"), list) and c.get("note"):
+        reuse_test(chk, c)
+    elif isinstance(c.get("a"), list):
         arr = impl_array(c["a"], c["k"], c["m1"], c["m2"])
         sc = [impl_scalar(x, c["k"], y, z) for x, y, z in zip(c["a"], c["m1"], c["m2"])]
         print("array:", arr, "\nscalars:", sc)
